@@ -141,9 +141,9 @@ func runProperty(repo, lib, prop, tier string) int {
 		fmt.Fprintf(os.Stderr, "property %s is not claimed (see MANIFEST.json not_applicable)\n", prop)
 		return 2
 	}
-	timeout := 10
+	timeout := 20
 	if tier == "thorough" {
-		timeout = 60
+		timeout = 90
 	}
 	v, err := LoadVerifier(repo, lib, ps.Pkgs)
 	if err != nil {
@@ -197,6 +197,7 @@ func runProperty(repo, lib, prop, tier string) int {
 
 	var fns []fnEvidence
 	var samples []sampleEvidence
+	var slow []sampleEvidence // the slowest obligations of the run (robustness audit)
 	assumptions := map[string]bool{}
 	totalObl, totalDis := 0, 0
 	violations := 0
@@ -262,6 +263,9 @@ func runProperty(repo, lib, prop, tier string) int {
 				}
 				lines = append(lines, fmt.Sprintf("VIOLATION property=%s replay=%s obligation=%s%s", prop, rp, shortKey(o.Label), suffix))
 			}
+			if o.Kind != "vacuity" && o.Time > 1 {
+				slow = append(slow, sampleEvidence{shortKey(o.Label), o.Kind, o.Status, o.Solver, round3(o.Time), ""})
+			}
 			if len(samples) < 40 && (o.Status != "discharged" || len(samples) < 25) {
 				pos := ""
 				if o.Pos.IsValid() {
@@ -311,6 +315,7 @@ func runProperty(repo, lib, prop, tier string) int {
 		"checker_cmd":              fmt.Sprintf("/verif/bin/gocv -prop %s -tier %s", prop, tier),
 		"trusted_base":             tb,
 		"samples":                  samples,
+		"slowest":                  slowest(slow, 12),
 		"functions_under_contract": fns,
 		"solver_time_s":            solverTime,
 		"solver_queries":           stats.nBySolver,
@@ -364,4 +369,12 @@ func round3(f float64) float64 { return float64(int(f*1000+0.5)) / 1000 }
 func writeJSON(path string, v any) {
 	data, _ := json.MarshalIndent(v, "", " ")
 	os.WriteFile(path, append(data, '\n'), 0o644)
+}
+
+func slowest(s []sampleEvidence, n int) []sampleEvidence {
+	sort.Slice(s, func(i, j int) bool { return s[i].TimeS > s[j].TimeS })
+	if len(s) > n {
+		s = s[:n]
+	}
+	return s
 }
